@@ -115,9 +115,20 @@ func workerMain(args []string) int {
 	}
 	shapeSet := map[uint64]struct{}{}
 	stateSet := map[uint64]struct{}{}
+	var shortest, longest, withEnv *Trace
 	flush := func(done bool, next int) {
 		wo.Done = done
 		wo.NextRun = next
+		wo.Samples = wo.Samples[:0]
+		for _, t := range []*Trace{shortest, withEnv, longest} {
+			if t != nil {
+				c := *t
+				if len(c.Steps) > 60 {
+					c.Steps = append([]Step{}, c.Steps[:60]...)
+				}
+				wo.Samples = append(wo.Samples, &c)
+			}
+		}
 		wo.Shapes = wo.Shapes[:0]
 		for h := range shapeSet {
 			wo.Shapes = append(wo.Shapes, h)
@@ -133,7 +144,6 @@ func workerMain(args []string) int {
 		}
 	}
 	o := genOptsFor(*tier, *domain, runtime.GOARCH)
-	var shortest, longest, withEnv *Trace
 	nviol := 0
 	for i := *from; i < *to; i += *stride {
 		if *deadline > 0 && time.Now().Unix() >= *deadline {
@@ -228,15 +238,6 @@ func workerMain(args []string) int {
 				flush(false, i+*stride)
 				return 0
 			}
-		}
-	}
-	for _, t := range []*Trace{shortest, withEnv, longest} {
-		if t != nil {
-			c := *t
-			if len(c.Steps) > 60 {
-				c.Steps = append([]Step{}, c.Steps[:60]...)
-			}
-			wo.Samples = append(wo.Samples, &c)
 		}
 	}
 	flush(true, *to)
